@@ -118,6 +118,7 @@ type c04Env struct {
 	msgCnt  int
 	migWait int64 // see nextBlock
 	migAt   int64 // height at whose start (after the previous EndBlocker, before the BeginBlocker — where x/upgrade runs module migrations) the store migration 1 -> 2 is run; 0 = never
+	foreign bool // the next deposit / pool-creation message carries a coin denom that is not in the pair
 	v1      bool // version-1 world: no market-making orders, no ranged pools (the store can be re-encoded in the v1 layout)
 	tiny    bool // tiny-price markets (prices around 10^-4 .. 10^-3): many truncations to zero in the matching engine
 }
@@ -818,6 +819,16 @@ func (e *c04Env) createPool(app uint64, ui int, pairID uint64, x, y sdkmath.Int,
 	if found {
 		qd, bd = pr.QuoteCoinDenom, pr.BaseCoinDenom
 	}
+	if e.foreign {
+		// a deposit coin whose denom is not in the pair (pool.go:90 / 249): ValidateBasic passes, the keeper refuses
+		bd = "ucoine"
+		if qd == bd {
+			bd = "ucmdx"
+		}
+		ext = false
+		e.foreign = false
+		e.tr.Count("createPool:foreign_denom")
+	}
 	coins := sdk.Coins{}
 	if x.IsPositive() {
 		coins = coins.Add(sdk.NewCoin(qd, x))
@@ -865,6 +876,12 @@ func (e *c04Env) poolDenoms(app, poolID uint64) (quote, base string, ok bool) {
 
 func (e *c04Env) depositCoins(app, poolID uint64, x, y sdkmath.Int) sdk.Coins {
 	qd, bd, _ := e.poolDenoms(app, poolID)
+	if e.foreign {
+		bd = "ucoine" // not in any pair of the menu (pool.go:382 / 847)
+		if qd == bd {
+			bd = "ucmdx"
+		}
+	}
 	coins := sdk.Coins{}
 	if x.IsPositive() {
 		coins = coins.Add(sdk.NewCoin(qd, x))
@@ -877,8 +894,13 @@ func (e *c04Env) depositCoins(app, poolID uint64, x, y sdkmath.Int) sdk.Coins {
 
 func (e *c04Env) deposit(app uint64, ui int, poolID uint64, x, y sdkmath.Int) {
 	msg := liqtypes.NewMsgDeposit(app, e.users[ui], poolID, e.depositCoins(app, poolID, x, y))
+	ext := !(e.foreign && y.IsPositive())
+	if e.foreign {
+		e.tr.Count("deposit:foreign_denom")
+	}
+	e.foreign = false
 	out := e.deliver(msg)
-	e.emit("lq.deposit", out, u(app), strconv.Itoa(ui), u(poolID), x.String(), y.String(), "1")
+	e.emit("lq.deposit", out, u(app), strconv.Itoa(ui), u(poolID), x.String(), y.String(), c04b(ext))
 }
 
 func (e *c04Env) withdraw(app uint64, ui int, poolID uint64, pc sdkmath.Int, wrongDenom bool) {
@@ -1030,8 +1052,11 @@ func (e *c04Env) depositAndFarm(app uint64, ui int, poolID uint64, x, y sdkmath.
 			ax, ay, pc = amm.Deposit(rx.Amount, ry.Amount, ps, x, y)
 		}
 	}
-	out := e.deliver(liqtypes.NewMsgDepositAndFarm(app, e.users[ui], poolID, e.depositCoins(app, poolID, x, y)))
-	e.emit("lq.depositAndFarm", out, u(app), strconv.Itoa(ui), u(poolID), x.String(), y.String(), ax.String(), ay.String(), pc.String(), "1")
+	coins := e.depositCoins(app, poolID, x, y)
+	ext := !(e.foreign && y.IsPositive())
+	e.foreign = false
+	out := e.deliver(liqtypes.NewMsgDepositAndFarm(app, e.users[ui], poolID, coins))
+	e.emit("lq.depositAndFarm", out, u(app), strconv.Itoa(ui), u(poolID), x.String(), y.String(), ax.String(), ay.String(), pc.String(), c04b(ext))
 }
 
 func (e *c04Env) unfarmAndWithdraw(app uint64, ui int, poolID uint64, amt sdkmath.Int) {
@@ -1228,6 +1253,10 @@ func (e *c04Env) genLimit(tiny bool) {
 			amt = minAmt
 		}
 	}
+	if e.rng.Chance(4) && minAmt.GT(sdkmath.NewInt(101)) {
+		amt = minAmt.SubRaw(1) // price·amount just below the module's minimum: ErrTooSmallOrder (swap.go:102)
+		e.tr.Count("order:too_small_directed")
+	}
 	tp := e.tickPrec(app)
 	tick := amm.PriceToUpTick(price, tp)
 	if buy {
@@ -1271,7 +1300,16 @@ func (e *c04Env) genMarket() {
 		offer = ref.MulInt(amt).MulInt64(112).QuoInt64(100).Ceil().TruncateInt()
 	}
 	msgOffer := offer.MulRaw(102).QuoRaw(100).AddRaw(2)
-	if pr, found := e.pair(app, pairID); found && pr.LastPrice != nil && e.rng.Chance(60) {
+	if pr, found := e.pair(app, pairID); found && pr.LastPrice != nil && e.rng.Chance(6) {
+		// price·amount below the module's minimum (swap.go:219): amounts 100 … 100/price
+		lim := sdkmath.LegacyNewDec(100).Quo(*pr.LastPrice).TruncateInt()
+		if lim.GT(sdkmath.NewInt(110)) {
+			amt = sdkmath.NewInt(100).Add(sdkmath.NewInt(int64(e.rng.Intn(int(lim.Int64()-100)))))
+			offer = amt.MulRaw(2).AddRaw(200)
+			msgOffer = offer
+			e.tr.Count("order:market_too_small_directed")
+		}
+	} else if found && pr.LastPrice != nil && e.rng.Chance(60) {
 		// exact need
 		params, _ := e.k.GetGenericParams(e.ctx, app)
 		tp := int(params.TickPrecision)
@@ -1284,14 +1322,15 @@ func (e *c04Env) genMarket() {
 		}
 		fee := offer.ToLegacyDec().MulTruncate(params.SwapFeeRate).TruncateInt()
 		msgOffer = offer.Add(fee)
-		if e.rng.Chance(5) {
-			msgOffer = msgOffer.SubRaw(1)
+		if e.rng.Chance(15) {
+			msgOffer = msgOffer.SubRaw(1) // one below what is needed (swap.go:201 / 214)
+			e.tr.Count("order:market_offer_one_short")
 		}
 	}
 	if !msgOffer.IsPositive() {
 		msgOffer = sdkmath.OneInt()
 	}
-	e.order(app, ui, pairID, 2, buy, msgOffer, sdkmath.LegacyZeroDec(), amt, e.lifespan(app), false)
+	e.order(app, ui, pairID, 2, buy, msgOffer, sdkmath.LegacyZeroDec(), amt, e.lifespan(app), e.rng.Chance(4))
 }
 
 func (e *c04Env) genMM() {
@@ -1313,9 +1352,32 @@ func (e *c04Env) genMM() {
 	case 2:
 		minSell = maxSell // single tick
 	case 3:
-		maxSell = pct(1500) // out of range
+		// one of the four prices out of range
+		switch e.rng.Intn(4) {
+		case 0:
+			maxSell = down(pct(1500))
+		case 1:
+			minSell, maxSell = down(pct(1300)), down(pct(1500))
+		case 2:
+			minBuy = down(pct(-1500))
+		case 3:
+			minBuy, maxBuy = down(pct(-1500)), down(pct(-1300))
+		}
+		e.tr.Count("mmOrder:gen_out_of_range")
 	case 4:
-		minBuy = minBuy.Add(sdkmath.LegacyNewDecWithPrec(1, 12)) // off tick
+		// one of the four prices off the tick grid
+		eps := sdkmath.LegacyNewDecWithPrec(1, 12)
+		switch e.rng.Intn(4) {
+		case 0:
+			minBuy = minBuy.Add(eps)
+		case 1:
+			maxBuy = maxBuy.Add(eps)
+		case 2:
+			minSell = minSell.Add(eps)
+		case 3:
+			maxSell = maxSell.Add(eps)
+		}
+		e.tr.Count("mmOrder:gen_off_tick")
 	case 5:
 		maxSell = amm.UpTick(amm.UpTick(minSell, tp), tp) // two ticks apart: the tick walk produces consecutive duplicates
 		minBuy = amm.DownTick(maxBuy, tp)                  // adjacent ticks
@@ -1336,6 +1398,12 @@ func (e *c04Env) genMM() {
 		}
 	}
 	e.mmOrder(app, ui, pairID, maxSell, minSell, sellAmt, maxBuy, minBuy, buyAmt, e.lifespan(app))
+	if e.rng.Chance(8) {
+		// a second MsgMMOrder of the same owner in the same batch: the replace must fail with ErrSameBatch (swap.go:373) and
+		// leave the first one's orders and index exactly as they are
+		e.tr.Count("mmOrder:replace_same_batch")
+		e.mmOrder(app, ui, pairID, maxSell, minSell, sellAmt, maxBuy, minBuy, buyAmt, e.lifespan(app))
+	}
 }
 
 func (e *c04Env) genCancel() {
@@ -1354,6 +1422,9 @@ func (e *c04Env) genCancel() {
 		return
 	}
 	app := e.pickApp()
+	if e.rng.Chance(25) {
+		app = uint64([]int{0, 4, 7}[e.rng.Intn(3)]) // no such app (swap.go:445)
+	}
 	e.cancel(app, e.pickUser(), e.pickPair(app), uint64(e.rng.Intn(30)))
 }
 
@@ -1437,6 +1508,10 @@ func (e *c04Env) genCancelAll() {
 		pairs = []uint64{e.pickPair(app), e.pickPair(app)} // possibly duplicate / zero
 	}
 	e.tr.Count(fmt.Sprintf("cancelAll:pairs=%d/of=%d", len(pairs), len(ids)))
+	if e.rng.Chance(4) {
+		app = uint64([]int{0, 4, 7}[e.rng.Intn(3)]) // no such app (swap.go:496)
+		e.tr.Count("cancelAll:unknown_app")
+	}
 	e.cancelAll(app, ui, pairs)
 }
 
@@ -1491,7 +1566,7 @@ func (e *c04Env) genCreatePool() {
 		initP := amm.PriceToDownTick(p, tp)
 		minP := amm.PriceToDownTick(p.MulInt64(int64(50+e.rng.Intn(45))).QuoInt64(100), tp)
 		maxP := amm.PriceToDownTick(p.MulInt64(int64(105+e.rng.Intn(100))).QuoInt64(100), tp)
-		switch e.rng.Intn(10) {
+		switch e.rng.Intn(14) {
 		case 0:
 			initP = minP
 		case 1:
@@ -1500,10 +1575,20 @@ func (e *c04Env) genCreatePool() {
 			maxP = minP
 		case 3:
 			x = sdkmath.ZeroInt()
+		case 4:
+			minP = minP.Add(sdkmath.LegacyNewDecWithPrec(1, 12)) // off the tick grid (pool.go:228)
+		case 5:
+			maxP = maxP.Add(sdkmath.LegacyNewDecWithPrec(1, 12))
+		case 6:
+			initP = initP.Add(sdkmath.LegacyNewDecWithPrec(1, 12))
+		case 7:
+			minP = sdkmath.LegacyNewDecWithPrec(1, 15) // a tick below LowestTick (10^-14) (pool.go:239)
 		}
+		e.foreign = e.rng.Chance(3)
 		e.createPool(app, ui, pairID, x, y, true, minP, maxP, initP)
 		return
 	}
+	e.foreign = e.rng.Chance(3)
 	e.createPool(app, ui, pairID, x, y, false, sdkmath.LegacyDec{}, sdkmath.LegacyDec{}, sdkmath.LegacyDec{})
 }
 
@@ -1563,6 +1648,7 @@ func (e *c04Env) genDeposit(andFarm bool) {
 	if x.IsNegative() {
 		x = sdkmath.ZeroInt()
 	}
+	e.foreign = e.rng.Chance(2)
 	if andFarm {
 		e.depositAndFarm(app, ui, poolID, x, y)
 	} else {
@@ -1834,6 +1920,60 @@ func (e *c04Env) witnessLifecycle() {
 	e.nextBlock(50)
 	e.nextBlock(50) // expired
 	e.nextBlock(5)
+	// --- (coverage round 5) a pool whose ENTIRE supply is farmed by its creator; another user's deposit request is pending when the
+	// creator's MsgUnfarmAndWithdraw takes the whole supply out (executed inside the message: supply 0 => disabled); the pending
+	// request is then executed against a disabled pool and refunded (pool.go:495-499)
+	e.createPair(2, 0, e.coins[3], e.coins[4])
+	e.createPool(2, 1, 1, n(20_000_000), n(20_000_000), false, sdkmath.LegacyDec{}, sdkmath.LegacyDec{}, sdkmath.LegacyDec{})
+	all := e.poolCoinBalance(1, 2, 1)
+	e.farm(2, 1, 1, all, false)
+	e.nextBlock(86400 + 5) // the queue entry matures: the creator's position is active
+	e.nextBlock(5)
+	e.deposit(2, 2, 1, n(1_000_000), n(1_000_000)) // pending
+	e.unfarmAndWithdraw(2, 1, 1, all)                // whole supply: active farmer record deleted (rewards.go:460), pool disabled
+	e.farm(2, 1, 1, n(1), false)                     // nothing left to farm
+	e.nextBlock(5)                                   // the pending deposit meets a disabled pool
+	e.nextBlock(5)
+	// exact unfarm of a position spread over queue and active part, down to zero
+	e.createPool(2, 1, 1, n(20_000_000), n(20_000_000), false, sdkmath.LegacyDec{}, sdkmath.LegacyDec{}, sdkmath.LegacyDec{}) // pool 2 (pool 1 is disabled)
+	half := e.poolCoinBalance(1, 2, 2).QuoRaw(2)
+	e.farm(2, 1, 2, half, false)
+	e.nextBlock(86400 + 5)
+	e.nextBlock(5)
+	e.farm(2, 1, 2, half.QuoRaw(2), false)
+	e.unfarm(2, 1, 2, half.Add(half.QuoRaw(2)), false) // queue entry and the whole active position: both records end at zero
+	e.unfarm(2, 1, 2, n(1), false)                      // nothing farmed any more
+	// messages addressed to things that do not exist, wrong pool-coin denoms
+	e.farm(2, 1, 9, n(10), false)
+	e.farm(7, 1, 1, n(10), false)
+	e.farm(2, 1, 2, n(10), true)
+	e.unfarm(2, 1, 9, n(10), false)
+	e.unfarm(7, 1, 1, n(10), false)
+	e.unfarm(2, 1, 2, n(10), true)
+	e.withdraw(2, 1, 9, n(10), false)
+	e.withdraw(7, 1, 1, n(10), false)
+	e.withdraw(2, 1, 2, n(10), true)
+	e.deposit(2, 1, 9, n(10), n(10))
+	e.deposit(7, 1, 1, n(10), n(10))
+	e.depositAndFarm(2, 1, 9, n(10), n(10))
+	e.depositAndFarm(2, 1, 1, n(1_000_000), n(1_000_000)) // disabled pool
+	e.withdraw(2, 1, 1, n(10), false)                       // disabled pool (pool.go:445)
+	e.unfarmAndWithdraw(2, 1, 9, n(10))
+	e.foreign = true
+	e.deposit(2, 1, 2, n(1_000_000), n(1_000_000)) // a coin that is not in the pair (pool.go:382)
+	e.foreign = true
+	e.depositAndFarm(2, 1, 2, n(1_000_000), n(1_000_000)) // (pool.go:847)
+	e.foreign = true
+	e.createPool(2, 1, 1, n(20_000_000), n(20_000_000), true, d("0.5"), d("2"), d("1")) // (pool.go:249)
+	e.createPool(2, 1, 1, n(20_000_000), n(20_000_000), true, d("0.5000001"), d("2"), d("1")) // min price off tick (pool.go:228)
+	e.createPool(2, 1, 1, n(20_000_000), n(20_000_000), true, d("0.000000000000001"), d("2"), d("1")) // below the lowest tick (pool.go:239)
+	// MaxNumActivePoolsPerPair = 20: pool 2 is active; 19 ranged pools more are accepted, the next one is refused (pool.go:117 / 261)
+	for i := 0; i < 20; i++ {
+		e.createPool(2, i%4, 1, n(2_000_000), n(2_000_000), true, d("0.5"), d("2"), d("1"))
+	}
+	e.foreign = true
+	e.createPool(2, 0, 1, n(20_000_000), n(20_000_000), false, sdkmath.LegacyDec{}, sdkmath.LegacyDec{}, sdkmath.LegacyDec{}) // (pool.go:90)
+	e.nextBlock(5)
 }
 
 // witnessCancelAll: one app with three pairs, one owner with orders of mixed ages in all of them; cancel-all with empty,
@@ -1938,6 +2078,85 @@ func (e *c04Env) witnessMigration() {
 	e.nextBlock(5)
 }
 
+// witnessRejections: every validation branch of MsgLimitOrder / MsgMarketOrder / MsgMMOrder / MsgCancel* that the model now
+// computes itself (price limits, tick grid, denoms, minimum order size, same-batch replace), once each, next to an accepted
+// twin — a change to any of them in the code is a DIFF on a line of this witness.
+func (e *c04Env) witnessRejections() {
+	d := func(s string) sdkmath.LegacyDec { return sdkmath.LegacyMustNewDecFromStr(s) }
+	n := func(x int64) sdkmath.Int { return sdkmath.NewInt(x) }
+	e.createPair(1, 0, e.coins[1], e.coins[2]) // app 1 pair 1: base c1, quote c2
+	e.createPair(2, 0, e.coins[2], e.coins[3]) // app 2 pair 1 (fee 1.75 %)
+	// no last price yet: the whole tick range is allowed; market orders are refused
+	e.order(1, 1, 1, 2, true, n(1_000_000), sdkmath.LegacyZeroDec(), n(100_000), 60, false) // ErrNoLastPrice
+	e.order(1, 1, 1, 1, false, n(2_006_000), d("0.5"), n(2_000_000), 3600, false)
+	e.order(1, 2, 1, 1, true, n(501_500), d("0.5"), n(1_000_000), 0, false)
+	e.order(2, 1, 1, 1, false, n(2_035_000), d("0.5"), n(2_000_000), 3600, false)
+	e.order(2, 2, 1, 1, true, n(508_750), d("0.5"), n(1_000_000), 0, false)
+	e.nextBlock(5) // last price 0.5 in both pairs: limits [0.45, 0.55]
+	// limit orders around the limits
+	e.order(1, 3, 1, 1, true, n(600_000), d("0.55"), n(1_000_000), 60, false)                  // exactly the upper limit: accepted
+	e.order(1, 3, 1, 1, true, n(600_000), d("0.55001"), n(1_000_000), 60, false)              // above: ErrPriceOutOfRange
+	e.order(1, 3, 1, 1, false, n(1_003_000), d("0.45"), n(1_000_000), 60, false)              // exactly the lower limit
+	e.order(1, 3, 1, 1, false, n(1_003_000), d("0.44999"), n(1_000_000), 60, false)            // below
+	e.order(1, 3, 1, 1, true, n(600_000), d("0.5123456"), n(1_000_000), 60, false)            // off tick: fitted DOWN for a buy
+	e.order(1, 3, 1, 1, false, n(1_003_000), d("0.5123456"), n(1_000_000), 60, false)         // … UP for a sell
+	e.order(1, 3, 1, 1, true, n(600_000), d("0.5"), n(199), 60, false)                        // 0.5·199 < 100: ErrTooSmallOrder
+	e.order(1, 3, 1, 1, true, n(600_000), d("0.5"), n(200), 60, false)                        // 0.5·200 = 100: accepted
+	e.order(1, 3, 1, 1, true, n(600_000), d("0.5"), n(1_000_000), 60, true)                   // denoms swapped: ErrWrongPair
+	// market orders
+	e.order(1, 3, 1, 2, true, n(600_000), sdkmath.LegacyZeroDec(), n(1_000_000), 60, false)   // price = tick↓(0.5·1.1)
+	e.order(1, 3, 1, 2, false, n(1_003_000), sdkmath.LegacyZeroDec(), n(1_000_000), 60, false) // price = tick↑(0.5·0.9)
+	e.order(1, 3, 1, 2, false, n(1_003_000), sdkmath.LegacyZeroDec(), n(1_000_000), 60, true) // sell with swapped denoms (swap.go:206)
+	e.order(1, 3, 1, 2, true, n(600_000), sdkmath.LegacyZeroDec(), n(1_000_000), 60, true)    // buy with swapped denoms (swap.go:193)
+	e.order(1, 3, 1, 2, false, n(1_002_999), sdkmath.LegacyZeroDec(), n(1_000_000), 60, false) // one short of amount + fee (swap.go:214)
+	e.order(1, 3, 1, 2, true, n(551_649), sdkmath.LegacyZeroDec(), n(1_000_000), 60, false)   // one short of ⌈0.55·amount⌉ + fee
+	e.order(1, 3, 1, 2, true, n(551_650), sdkmath.LegacyZeroDec(), n(1_000_000), 60, false)   // exactly enough
+	e.order(1, 3, 1, 2, false, n(10_000), sdkmath.LegacyZeroDec(), n(222), 60, false)          // 0.45·222 < 100 (swap.go:219)
+	e.order(1, 3, 1, 2, false, n(10_000), sdkmath.LegacyZeroDec(), n(223), 60, false)          // 0.45·223 ≥ 100
+	e.order(2, 3, 1, 2, false, n(1_017_500), sdkmath.LegacyZeroDec(), n(1_000_000), 60, false) // fee 1.75 %: exactly enough
+	e.order(2, 3, 1, 2, false, n(1_017_499), sdkmath.LegacyZeroDec(), n(1_000_000), 60, false) // one short
+	// market-making orders: each of the four prices off the tick grid / out of range, once
+	ok := func(maxS, minS, maxB, minB string) {
+		e.mmOrder(1, 2, 1, d(maxS), d(minS), n(1_000_000), d(maxB), d(minB), n(1_000_000), 60)
+	}
+	ok("0.54", "0.51", "0.49", "0.46")     // accepted: 10 + 10 ticks
+	ok("0.54", "0.51", "0.49", "0.46")     // same batch: ErrSameBatch (swap.go:373), nothing changes
+	ok("0.54", "0.510001", "0.49", "0.46") // min sell off tick (swap.go:286) — the validations come before the replace
+	ok("0.540001", "0.51", "0.49", "0.46") // max sell off tick
+	ok("0.54", "0.51", "0.49", "0.460001") // min buy off tick
+	ok("0.54", "0.51", "0.490001", "0.46") // max buy off tick (swap.go:297)
+	ok("0.54", "0.44", "0.49", "0.46")     // min sell below the range (swap.go:316)
+	ok("0.56", "0.51", "0.49", "0.46")     // max sell above
+	ok("0.54", "0.51", "0.49", "0.44")     // min buy below
+	ok("0.54", "0.51", "0.56", "0.46")     // max buy above (swap.go:327)
+	e.mmOrder(1, 2, 1, d("0.52"), d("0.51"), n(150), d("0.49"), d("0.48"), n(99), 60) // buy amount below the minimum (ValidateBasic)
+	e.mmOrder(1, 4, 1, d("0.52"), d("0.51"), n(0), d("0.49"), d("0.48"), n(100_000_000), 60) // the poor account: quote coins insufficient (swap.go:359)
+	e.mmOrder(1, 4, 1, d("0.52"), d("0.51"), n(100_000_000), d("0.49"), d("0.48"), n(0), 60) // … base coins insufficient
+	e.nextBlock(5)
+	if pr, found := e.pair(1, 1); found && pr.LastPrice != nil {
+		lo, hi := e.priceLimits(1, pr)
+		tp := e.tickPrec(1)
+		e.mmOrder(1, 2, 1, hi, lo, n(1_000_000), hi, lo, n(1_000_000), 60) // exactly the limits on both sides: accepted, replaces the first one
+		e.nextBlock(5)
+		e.mmOrder(1, 2, 1, amm.UpTick(hi, tp), lo, n(1_000_000), hi, lo, n(1_000_000), 60) // one tick beyond
+		mid := amm.PriceToDownTick(*pr.LastPrice, tp)
+		e.mmOrder(1, 2, 1, amm.UpTick(amm.UpTick(mid, tp), tp), amm.UpTick(mid, tp), n(1_000_000), amm.DownTick(mid, tp), amm.DownTick(amm.DownTick(mid, tp), tp), n(1_000_000), 60) // adjacent ticks: the walk yields duplicates
+		e.nextBlock(5)
+		e.mmOrder(1, 2, 1, hi, hi, n(1_000_000), lo, lo, n(0), 60) // sell side only, one tick
+	}
+	// cancels that are refused before any order is looked at
+	e.cancelMM(1, 2, 9)  // pair not found (swap.go:585)
+	e.cancelMM(7, 2, 1)  // app not found
+	e.cancel(7, 3, 1, 1) // app not found (swap.go:445)
+	e.cancel(1, 3, 1, 99)
+	e.cancelAll(7, 3, nil) // app not found (swap.go:496)
+	e.nextBlock(5)
+	e.cancelMM(1, 2, 1)
+	e.cancelAll(1, 3, nil)
+	e.nextBlock(70)
+	e.nextBlock(5)
+}
+
 func c04Run(t *testing.T, prop string) {
 	tr := OpenTrace(t, strings.ToLower(prop)+".trace")
 	defer tr.Close(t)
@@ -1954,6 +2173,8 @@ func c04Run(t *testing.T, prop string) {
 	e.witnessExecutedInMessage()
 	e = c04NewEnv(t, tr, rng, prop, 0)
 	e.witnessMigration()
+	e = c04NewEnv(t, tr, rng, prop, 0)
+	e.witnessRejections()
 	nseq := scale(10, 120)
 	blocks := scale(45, 110)
 	if os := envInt("VERIF_SEARCH", 0); os == 1 {
